@@ -245,7 +245,7 @@ pub fn run(eng: &mut Engine) {
     eng.prop_part(
         "forged_lookups",
         "honest generated histories; after every effective publish, for every pool label: the honest proof (control); a proof for EVERY superseded version with the freshness proof taken from the server's generator and anchored at every node of the path; never-published labels; shallow anchors for the latest version; altered value (with/without recomputed nonce), epoch, re-dated leaf hash, versions beyond the epoch / never issued; marker and existence proofs forged from the root value; material and whole proofs of earlier epochs; another label's proof and all 10 single-field swaps; oracle: accepted => reports the model's latest (value, version, epoch); non-trivial = a stale-version candidate with a forged freshness proof was evaluated; distinct by history",
-        eng.tier.pick(600, 8000),
+        eng.tier.pick(600, 4000),
         move || strategy(thorough),
         check,
     );
